@@ -392,6 +392,16 @@ func vfC19Scenarios(thorough bool) []*vfGWScenario {
 		Prefix: []string{"conn:q", "sub:q:t", "join:t", "hold:p", "conn:p", "sub:p:t"}},
 		Alphabet: []string{"graft:p:t", "prune:p:t", "inclose:p", "inreset:p", "inopen:p", "release:p", "failstream:p", "outreset:p", "disc:p", "conn:p", "sub:p:t", "hb", "adv:1100"},
 		Msgs:     msgs, Depth: d + 1})
+	// a mesh peer that has stopped reading, with a queue of two: what the queue refuses (forwarded messages and the
+	// urgent IDONTWANTs alike) is traced as dropped, what it accepts as sent, and once the peer reads again the frames
+	// it gets are exactly the ones traced as sent
+	{
+		ps := []vfPeerCfg{{Name: "a", Proto: "v12", IP: "10.0.0.1"}, {Name: "h", Proto: "v12", IP: "10.0.0.2"}}
+		m4 := map[string]vfMsgSpec{"m1": {Topic: "t", Author: "x", Seq: 1, Size: 32}, "m2": {Topic: "t", Author: "x", Seq: 2, Size: 32}, "m3": {Topic: "t", Author: "x", Seq: 3, Size: 32}, "m4": {Topic: "t", Author: "x", Seq: 4, Size: 32}}
+		out = append(out, &vfGWScenario{Name: "gossip-stalled-mesh-peer", Cfg: vfGWCfg{Router: "gossip", Peers: ps, Topics: []string{"t"}, Params: "d2", Scoring: true, Tracer: true, SeenTTL: 3600, QueueSize: 2,
+			Prefix: []string{"conn:a", "sub:a:t", "conn:h", "sub:h:t", "join:t", "graft:a:t", "gate:a"}},
+			Alphabet: []string{"pub:h:m1", "pub:h:m2", "pub:h:m3", "pub:h:m4", "lpub:t:p1", "hb", "ungate:a", "gate:a"}, Msgs: m4, Depth: d + 1})
+	}
 	out = append(out, &vfGWScenario{Name: "gossip-fanoutonly", Cfg: vfGWCfg{Router: "gossip", Peers: p4[:2], Topics: []string{"t", "u"}, Params: "d2", Tracer: true, SeenTTL: 3600, Extra: map[string]string{"fanout_only": "t"},
 		Prefix: []string{"conn:a", "sub:a:t"}},
 		Alphabet: []string{"join:t", "leave:t", "join:u", "leave:u", "relay:u", "unrelay:u", "lpub:t:p1", "lpub:t:p2", "lpub:t:p3:key", "hb", "conn:b", "sub:b:t"}, Msgs: msgs, Depth: d})
